@@ -131,7 +131,7 @@ def gen_case(rng, tier):
             pool.append({"perm": p, "route": rng.choice(ROUTES)})
     pool = pool[:6]
     initial_pool = [dict(e) for e in pool]
-    nops = rng.randint(6, 30)
+    nops = rng.randint(6, 30) if rng.random() >= 0.03 else rng.randint(80, 200)  # swarm: a few long histories
     ops = []
     live = []
     live_patt = {}
